@@ -342,6 +342,9 @@ def fd_cases(draw):
         cfg["target"]["mean"] = [float(m + k * v) for m, v in zip(cfg["target"]["mean"], sd)]
         cfg["far"] = k
         cfg["zero_mode"] = ["generic"] * cfg["d"]
+    if cfg["bounds"] is not None:
+        # points on / next to the upper wall, where the estimate has to step inwards
+        cfg["zero_mode"] = [draw(st.sampled_from([m, m, "upper", "upper-"])) for m in cfg["zero_mode"]]
     return cfg
 
 
@@ -352,6 +355,8 @@ def body_finite_diff(case, ctx):
     box = info["box"]
     for i, m in enumerate(case["zero_mode"]):
         v = {"zero": 0.0, "tiny": 1e-12 * s[i], "neg": -abs(t[i])}.get(m, t[i])
+        if m in ("upper", "upper-") and box is not None:
+            v = box[1][i] if m == "upper" else box[1][i] - 1e-7 * (box[1][i] - box[0][i])
         if box is not None and not (box[0][i] <= v <= box[1][i]):
             continue
         t[i] = v
